@@ -12,6 +12,7 @@ import (
 	"os"
 	"os/exec"
 	"path/filepath"
+	"runtime/debug"
 	"strings"
 
 	"golang.org/x/tools/go/ssa"
@@ -101,7 +102,10 @@ func runConcreteFn(ld *loaded, spec *JobSpec, fn *ssa.Function) (v uint64, err e
 	m := newMachine(ld, spec, nil, nil, map[string]int{}, map[string]uint64{})
 	defer func() {
 		if r := recover(); r != nil {
-			err = fmt.Errorf("%v", r)
+			err = fmt.Errorf("%v @ %s", r, m.prog.Fset.Position(m.lastPos))
+			if os.Getenv("VERIF_DEBUG_INIT") != "" {
+				err = fmt.Errorf("%v\n%s", err, trimStack(string(debug.Stack())))
+			}
 		}
 	}()
 	m.cur = &G{}
